@@ -24,6 +24,7 @@ func runC17(c *core.Ctx) {
 	c.Assume("A6: partial correctness", "closers are not invoked from within other methods of the same handle (checked: no static call to a closer from a sibling method)")
 	c.RuleDoc("R17.1", "nullable pointer field: every dereference guarded by a dominating non-nil test")
 	c.RuleDoc("R17.5", "every success return of a handle method lies on a path that consulted the closed mark or delegated")
+	c.RuleDoc("R17.9", "a second Close fails")
 	c.RuleDoc("R17.8", "every error of the OS-backed handle is the inner *os.File's (a closed handle answers ErrClosed whatever the arguments)")
 	c.RuleDoc("R17.7", "methods of the OS-backed file act through the held *os.File only")
 	c.RuleDoc("R17.6", "handle values are never recycled through a pool")
@@ -46,6 +47,7 @@ func runC17(c *core.Ctx) {
 	c.Floor("R17.5", 30)
 	c.Floor("R17.7", 10)
 	c.Floor("R17.8", 10)
+	c.Floor("R17.9", 2)
 	c.Floor("R17.3", 8)
 	c.Floor("R17.4", 1)
 }
@@ -448,6 +450,31 @@ func r17ClosedState(c *core.Ctx, p *load.Program) {
 		if markField == "" && innerField == "" {
 			c.Bad("R17.2", key, p.Pos(closeFn.Pos()), fmt.Sprintf("%s: Close neither marks the handle (no receiver field written) nor closes an inner handle — calls after Close cannot fail", fname(closeFn)))
 			continue
+		}
+		// R17.9: Close itself fails on a handle that is already closed: where it marks the handle with a field of its
+		// own, the marking store is reached only after a test of that field (the 'already closed' branch returned)
+		if markField != "" && innerField == "" {
+			var mark *ssa.Store
+			ssax.Instrs(closeFn, func(ins ssa.Instruction) {
+				if x, ok := ins.(*ssa.Store); ok {
+					if fa, ok := x.Addr.(*ssa.FieldAddr); ok && fa.X == ssa.Value(recv) && ssax.FieldName(fa) == markField {
+						mark = x
+					}
+				}
+			})
+			tested := false
+			if mark != nil {
+				for _, f := range ssax.FactsAtInstr(mark) {
+					if dependsOn(f.Cond, func(v ssa.Value) bool { return isLoadOfField(v, recv, markField) }) {
+						tested = true
+					}
+					if x, _, ok := ssax.NilTest(f.Cond); ok && isLoadOfField(x, recv, markField) {
+						tested = true
+					}
+				}
+			}
+			c.Check(tested, "R17.9", tk+"|second-close-fails", p.Pos(closeFn.Pos()), "Close marks the handle only after testing that it is not closed yet",
+				fmt.Sprintf("%s marks the handle closed without having tested whether it already is: a second Close returns nil instead of an error matching ErrClosed (os.File: 'close: file already closed')", fname(closeFn)))
 		}
 		// every other exported method consults the mark or delegates to the inner handle
 		var bad []string
